@@ -77,10 +77,17 @@ def check_case(rec, case):
         return
     T = o.value
     verdicts = set()
-    words = list(fa.words_upto(RT[1], case['n']))
+    words = list(fa.words_upto(RT[1], case['n'])) + list(case.get('long_words', ()))
     for w in words:
         decided = None
-        for k in KS:
+        ks = KS
+        if len(w) > case['n']:
+            # long runs: budgets around the halting step (from the reference interpreter) and around powers of two
+            vv, cf_ = tmr.run(RT, w, 20000)
+            h = len(cf_) - 1
+            ks = sorted({0, 1, 50, 127, 128, 129, 255, 256, 257, 1000, 1023, 1024, 1025, max(h - 1, 0), h, h + 1, 2 * h + 3, 5000})
+            rec.counters['long_run_steps_max'] = max(rec.counters['long_run_steps_max'], h)
+        for k in ks:
             o = call(ta.tm_accepts_word, T, w, k)
             if not o.ok:
                 report_failure(rec, o, 'tm_accepts_word', word=w, max_steps=k)
@@ -193,6 +200,29 @@ def gen_cases(rec, rng, tier):
         for h in ('qa', 'qr'):
             RT = random_tm(rng, 2, 1, 2, '_', q0_halting=h, halting_moves=True)
             yield {'cls': 'initial_state_is_halting', 'ref': RT, 'n': 2}
+    # long runs (hundreds to thousands of steps): zig-zag and counting machines on long inputs
+    Q = ['s', 'r0', 'r1', 'l', 'qa', 'qr']
+    G = ['0', '1', 'x', '_']
+    # palindromes over {0,1}: cross off the first letter, run right, compare the last, run back (quadratic number of steps)
+    D = [('s', '0', 'r0', 'x', 'R'), ('s', '1', 'r1', 'x', 'R'), ('s', 'x', 'qa', 'x', 'R'), ('s', '_', 'qa', '_', 'R'),
+         ('r0', '0', 'r0', '0', 'R'), ('r0', '1', 'r0', '1', 'R'), ('r0', '_', 'c0', '_', 'L'), ('r0', 'x', 'c0', 'x', 'L'),
+         ('r1', '0', 'r1', '0', 'R'), ('r1', '1', 'r1', '1', 'R'), ('r1', '_', 'c1', '_', 'L'), ('r1', 'x', 'c1', 'x', 'L'),
+         ('c0', '0', 'l', 'x', 'L'), ('c0', 'x', 'qa', 'x', 'R'), ('c1', '1', 'l', 'x', 'L'), ('c1', 'x', 'qa', 'x', 'R'),
+         ('l', '0', 'l', '0', 'L'), ('l', '1', 'l', '1', 'L'), ('l', 'x', 's', 'x', 'R')]
+    PAL = tmr.make(Q + ['c0', 'c1'], '01', G, D, 's', 'qa', 'qr', '_')
+    # 0^(2^n) (Sipser fig. 3.8)
+    D2 = [('q1', '_', 'qr', '_', 'R'), ('q1', 'x', 'qr', 'x', 'R'), ('q1', '0', 'q2', '_', 'R'), ('q2', 'x', 'q2', 'x', 'R'), ('q2', '_', 'qa', '_', 'R'),
+          ('q2', '0', 'q3', 'x', 'R'), ('q3', 'x', 'q3', 'x', 'R'), ('q3', '0', 'q4', '0', 'R'), ('q3', '_', 'q5', '_', 'L'), ('q4', 'x', 'q4', 'x', 'R'),
+          ('q4', '0', 'q3', 'x', 'R'), ('q4', '_', 'qr', '_', 'R'), ('q5', '0', 'q5', '0', 'L'), ('q5', 'x', 'q5', 'x', 'L'), ('q5', '_', 'q2', '_', 'R')]
+    POW = tmr.make(['q1', 'q2', 'q3', 'q4', 'q5', 'qa', 'qr'], '0', ['0', 'x', '_'], D2, 'q1', 'qa', 'qr', '_')
+    if rec.shard % 2 == 0:
+        lw = []
+        for L_ in (12, 16, 23, 31):
+            half = ''.join(rng.choice('01') for _ in range(L_ // 2))
+            lw += [half + half[::-1], half + ('0' if L_ % 2 else '') + half[::-1], half + half]
+        yield {'cls': 'long_run_palindromes', 'ref': PAL, 'n': 2, 'long_words': lw[:8 if thorough else 5]}
+    else:
+        yield {'cls': 'long_run_powers_of_two', 'ref': POW, 'n': 2, 'long_words': ['0' * m for m in ((16, 24, 32, 33, 64) if thorough else (16, 32, 33))]}
     # left-end bouncer and non-halting loops
     yield {'cls': 'left_end', 'ref': tmr.make(['w0', 'w1', 'qa', 'qr'], 'a', ['a', '_'], [('w0', 'a', 'w0', 'a', 'L'), ('w0', '_', 'w1', '_', 'L'), ('w1', '_', 'qa', 'a', 'L')], 'w0', 'qa', 'qr', '_'), 'n': 3}
     yield {'cls': 'loop', 'ref': tmr.make(['w0', 'qa', 'qr'], 'ab', ['a', 'b', '_'], [('w0', 'a', 'w0', 'b', 'R'), ('w0', 'b', 'w0', 'a', 'R'), ('w0', '_', 'w0', '_', 'L')], 'w0', 'qa', 'qr', '_'), 'n': 3}
